@@ -42,25 +42,27 @@ Fixpoint digits_val (l : bytes) (acc : N) : option N :=
   end.
 
 (* str::parse::<i64>: optional sign, at least one digit, in range *)
-Definition parse_i64 (l : bytes) : option Z :=
-  let body sign ds :=
-    match ds with
-    | [] => None
-    | _ => match digits_val ds 0 with
-           | Some n => let z := (sign * Z.of_N n)%Z in
-                       if ((-9223372036854775808 <=? z) && (z <=? 9223372036854775807))%Z then Some z else None
-           | None => None
-           end
-    end in
+Definition sign_split (l : bytes) : Z * bytes :=
   match l with
-  | 43 :: ds => body 1%Z ds
-  | 45 :: ds => body (-1)%Z ds
-  | ds => body 1%Z ds
+  | 43 :: ds => (1%Z, ds)
+  | 45 :: ds => ((-1)%Z, ds)
+  | ds => (1%Z, ds)
+  end.
+Definition parse_i64 (l : bytes) : option Z :=
+  let '(sign, ds) := sign_split l in
+  match ds with
+  | [] => None
+  | _ => match digits_val ds 0 with
+         | Some n => let z := (sign * Z.of_N n)%Z in
+                     if ((-9223372036854775808 <=? z) && (z <=? 9223372036854775807))%Z then Some z else None
+         | None => None
+         end
   end.
 
 (* str::parse::<usize> *)
+Definition strip_plus (l : bytes) : bytes := match l with 43 :: ds => ds | ds => ds end.
 Definition parse_usize (l : bytes) : option N :=
-  match (match l with 43 :: ds => ds | ds => ds end) with
+  match strip_plus l with
   | [] => None
   | ds => match digits_val ds 0 with Some n => if n <=? 18446744073709551615 then Some n else None | None => None end
   end.
